@@ -1,0 +1,8 @@
+//go:build !verif
+// +build !verif
+
+package kafka
+
+// verifPoint marks a schedule point for the verification harness; it is a
+// no-op unless the package is built with the `verif` tag.
+func verifPoint(string) {}
